@@ -1,16 +1,107 @@
 import BevySyncModel.Proofs.CompBound
 import BevySyncModel.Proofs.AssetBound
+import BevySyncModel.Proofs.CompPot
+import BevySyncModel.Proofs.AssetPot
+import BevySyncModel.Proofs.MatBound
+import BevySyncModel.Proofs.EntBound
 import BevySyncModel.Generated.Sync
-/-! # C09 — replication traffic is finite and self-quenching (component slice)
+import BevySyncModel.Generated.Asset
+import BevySyncModel.Generated.Ent
+/-! # C09 — replication traffic is finite and self-quenching
 
-`sent` is a ghost counter of every message ever put on a channel. -/
+`sent` is a ghost counter of every message ever put on a channel.  Two layers:
+
+* the **global bounds** (`C09_*_traffic_bounded`, `C09_*_quiet`): for each of the four kinds of replicated state —
+  components and parent links (`Comp`, both relay modes, any patch function), entity life (`Ent`), inline materials
+  (`Mat`), download-class assets (`Asset`) — any history of application operations by **any** peers (conflicting or not),
+  under any schedule, sends at most `N + 1` messages per application operation (`N` clients), and a history without
+  further operations sends at most what the potential of its first state says is still owed — nothing from a calm state;
+* the **epoch theorems** (one writer at a time): the exact shape of the traffic — who sends, who stays silent. -/
 namespace BevySync
 namespace Props
 open Comp
 
 theorem C09_code_paths_tie :
-    Generated.applySkipsOnToken = false ∧ Generated.applyIsPatch = false ∧ Generated.fixReinsertsValue = false := by
+    Generated.applySkipsOnToken = false ∧ Generated.applyIsPatch = false ∧ Generated.fixReinsertsValue = false ∧
+    Generated.assetTokensCounted = true ∧ Generated.assetProcessFilesToken = true ∧
+    Generated.assetReactDebounceServeAnnounce = true ∧ Generated.assetMaterialInlinePath = true ∧
+    Generated.entDeleteHandlersNamedEntityOnly = true ∧ Generated.entSpawnHandlers = true ∧
+    Generated.entRemovedDetectors = true := by
   decide
+
+/-! ## global bounds: any writers, any schedule -/
+
+section Global
+variable {V : Type} [DecidableEq V] {ra : Bool}
+
+/-- **components and parent links.** `N + 1` messages per application write at most, whoever writes whenever. -/
+theorem C09_comp_traffic_bounded (pt : V → V → V) (s : State V) (as : List (Act V))
+    (hn : (s.clients.map (·.id)).Nodup) (hc : Comp.Calm s) :
+    (run ra false pt s as).sent ≤ s.sent + (s.clients.length + 1) * wops as :=
+  comp_traffic_bounded pt s as hn hc
+
+/-- … and frames without application writes send at most what is still owed (nothing from a calm state) -/
+theorem C09_comp_quiet (pt : V → V → V) (s : State V) (as : List (Act V)) (hn : (s.clients.map (·.id)).Nodup)
+    (h0 : wops as = 0) : (run ra false pt s as).sent ≤ gpot s :=
+  comp_quiet pt s as hn h0
+
+/-- from a calm state, frames without application writes send nothing at all -/
+theorem C09_comp_calm_silent (pt : V → V → V) (s : State V) (as : List (Act V)) (hn : (s.clients.map (·.id)).Nodup)
+    (hc : Comp.Calm s) (h0 : wops as = 0) : (run ra false pt s as).sent ≤ s.sent := by
+  have h1 := comp_traffic_bounded (ra := ra) pt s as hn hc
+  rw [h0] at h1
+  simpa using h1
+
+/-- **entity life.** `N + 1` messages per `SyncMark` insertion or application despawn at most, whichever peers act. -/
+theorem C09_ent_traffic_bounded (s : Ent.State) (as : List Ent.Act) (hn : (s.clients.map (·.id)).Nodup)
+    (hc : Ent.Calm s) : (Ent.run s as).sent ≤ s.sent + (s.clients.length + 1) * Ent.ops as :=
+  Ent.ent_traffic_bounded s as hn hc
+
+theorem C09_ent_quiet (s : Ent.State) (as : List Ent.Act) (hn : (s.clients.map (·.id)).Nodup) (h0 : Ent.ops as = 0) :
+    (Ent.run s as).sent ≤ Ent.pot s :=
+  Ent.ent_quiet s as hn h0
+
+/-- **inline materials.** `N + 1` messages per publication at most, whichever peers publish. -/
+theorem C09_mat_traffic_bounded (s : Mat.State) (as : List Mat.Act) (hn : (s.clients.map (·.id)).Nodup)
+    (hc : Mat.Calm s) : (Mat.run true s as).sent ≤ s.sent + (s.clients.length + 1) * Mat.ops as :=
+  Mat.mat_traffic_bounded s as hn hc
+
+theorem C09_mat_quiet (s : Mat.State) (as : List Mat.Act) (hn : (s.clients.map (·.id)).Nodup) (h0 : Mat.ops as = 0) :
+    (Mat.run true s as).sent ≤ Mat.pot s :=
+  Mat.mat_quiet s as hn h0
+
+/-- **download-class assets.** `N + 1` announcements per publication at most, whichever peers publish, whatever the
+downloads do meanwhile. -/
+theorem C09_asset_traffic_bounded (s : Asset.State) (as : List Asset.Act) (hn : (s.clients.map (·.id)).Nodup)
+    (hc : Asset.Calm s) : (Asset.run true false s as).sent ≤ s.sent + (s.clients.length + 1) * Asset.pops as :=
+  Asset.asset_traffic_bounded s as hn hc
+
+theorem C09_asset_quiet (s : Asset.State) (as : List Asset.Act) (hn : (s.clients.map (·.id)).Nodup)
+    (h0 : Asset.pops as = 0) : (Asset.run true false s as).sent ≤ Asset.gpot s :=
+  Asset.asset_quiet s as hn h0
+
+/-- non-vacuity: two clients write conflicting values in the same frames; 2 writes, 3 peers, 4 messages ≤ 2 · 3 -/
+example :
+    let s0 : State Nat := { clients := [{ id := 1 }, { id := 2 }] }
+    let as : List (Act Nat) := [.writeC 1 7, .writeC 2 8, .detectC 1, .detectC 2, .reactC 1, .reactC 2, .pollH 1 1, .pollH 2 1,
+      .flushH, .flushH, .detectH, .reactH, .pollC 1 3, .pollC 2 3, .flushC 1, .flushC 2, .flushC 1, .flushC 2, .detectC 1,
+      .detectC 2, .reactC 1, .reactC 2]
+    Comp.Calm s0 ∧ wops as = 2 ∧ (run false false replace s0 as).sent = 4 := by
+  refine ⟨by simp [Comp.Calm], by decide, by decide⟩
+
+/-- non-vacuity: an entity marked on client 1, despawned on client 2 and on the host in the same frames -/
+example :
+    let s0 : Ent.State := { clients := [Ent.Client.mk 1 {} [] [] true, Ent.Client.mk 2 {} [] [] true] }
+    let as : List Ent.Act := [.markC 1, .createdC 1, .pollH 1 1, .pollC 2 1, .despawnC 2, .despawnH, .removedC 2, .removedH,
+      .pollH 2 1, .pollC 1 5, .pollC 2 5, .removedC 1]
+    Ent.ops as = 3 ∧ (Ent.run s0 as).sent ≤ 3 * 3 ∧ (Ent.run s0 as).sent = 6 := by decide
+
+/-- the set semantics of the debounce entries before their repair breaks the material bound: no publication, one message -/
+example :
+    let s0 : Mat.State := { clients := [Mat.Client.mk 1 {} [5, 6] [] []] }
+    (Mat.run false s0 [.flushC 1, .flushC 1, .reactC 1, .reactC 1]).sent = 1 := by decide
+
+end Global
 
 variable {V : Type} [DecidableEq V] {ra : Bool}
 
